@@ -277,12 +277,14 @@ def run_case(case):
 
         tg = planaudit.targeted(os.environ.get("VMON_SCRATCH"))
         try:
-            q = tg[case["targeted_name"]]()
+            with dask.config.set({"dataframe.shuffle.method": "tasks"}):
+                q = tg[case["targeted_name"]]()
         except Exception:
             return {"status": "refused", "counters": {"build_refused": 1}}
         if not hasattr(q, "expr"):
             return {"status": "undecided", "counters": {"not_a_collection": 1}}
         tag = f"targeted:{case['targeted_name']}"
+        rebuild = tg[case["targeted_name"]]
     elif "targeted" in case:
         try:
             q = TARGETED[case["targeted"]]()
@@ -302,6 +304,12 @@ def run_case(case):
     viol = None
     for method in ("tasks", "disk"):
         with dask.config.set({"dataframe.shuffle.method": method}):
+            if "targeted_name" in case and method == "disk":
+                # a collection is planned under the configuration it was built with (joins cache planning decisions at build time)
+                try:
+                    q = rebuild()
+                except Exception:
+                    continue
             for stage in STAGES:
                 try:
                     e = optimize_until(q.expr, stage)
